@@ -1,13 +1,15 @@
-// varith is a worker that contains only E-arith (C20). It links nothing but coredhcp's pure-Go
-// allocators package, so the driver can also build it for a 32-bit architecture (GOARCH=386, no cgo)
-// and run the same evaluations there: integer-width mistakes only show on such a build.
+// varith is a worker that contains only E-arith (C20) and the sequential E-alloc (C04-C07). It links
+// nothing but coredhcp's pure-Go allocator packages, so the driver can also build it for a 32-bit
+// architecture (GOARCH=386, no cgo) and run the same evaluations there: integer-width mistakes only show
+// on such a build.
 package main
 
 import (
+	"verif/internal/engalloc"
 	"verif/internal/engarith"
 	"verif/internal/fw"
 )
 
 func main() {
-	fw.RunWorker(map[string]fw.Engine{"arith": engarith.Engine}, nil)
+	fw.RunWorker(map[string]fw.Engine{"arith": engarith.Engine, "alloc": engalloc.Engine}, nil)
 }
